@@ -2,6 +2,7 @@ import TantivyModel.Driver.Proto
 import TantivyModel.Model.TopN
 import TantivyModel.Model.Wand
 import TantivyModel.Model.BlockWand
+import TantivyModel.Model.LazyKey
 /-!
 Line protocol of the C06 model. Keys travel as integers (the harness maps real keys to ranks
 that preserve the comparator's order), addresses as naturals.
@@ -135,7 +136,35 @@ def showCalls (st : FCb) (θ : Float32) : String :=
   "ok|" ++ (if st.calls.isEmpty then "-" else ",".intercalate (st.calls.map fun c => s!"{c.1}@{c.2.toBits.toNat}"))
     ++ "|" ++ toString θ.toBits.toNat
 
+/-! ### lazy acceptance of tuple sort keys -/
+
+/-- a component compared through its comparator = natural comparison of ranks -/
+def lazyLeaf : Nat → Nat → Option (Ordering × Nat) := TopN.acceptLeaf (fun a b => compare a b)
+
+def showAccept {κ : Type} : Option (Ordering × κ) → String
+  | none => "none"
+  | some (.lt, _) => "lt"
+  | some (.eq, _) => "eq"
+  | some (.gt, _) => "gt"
+
+/-- the chains the tuple shapes of the harness stand for (3- and 4-tuples are `(a, (b, (c, d)))`
+behind the forwarding adapter) -/
+def lazyAccept (shape : Nat) (k t : List Nat) : String :=
+  let g (l : List Nat) (i : Nat) : Nat := l.getD i 0
+  match shape with
+  | 0 => showAccept (TopN.acceptPair lazyLeaf (TopN.acceptPair lazyLeaf lazyLeaf) (g k 0, (g k 1, g k 2)) (g t 0, (g t 1, g t 2)))
+  | 1 | 3 => showAccept (TopN.acceptPair lazyLeaf (TopN.acceptPair lazyLeaf (TopN.acceptPair lazyLeaf lazyLeaf))
+      (g k 0, (g k 1, (g k 2, g k 3))) (g t 0, (g t 1, (g t 2, g t 3))))
+  | 2 => showAccept (TopN.acceptPair (TopN.acceptPair lazyLeaf (TopN.acceptPair lazyLeaf lazyLeaf)) lazyLeaf
+      ((g k 0, (g k 1, g k 2)), g k 3) ((g t 0, (g t 1, g t 2)), g t 3))
+  | _ => showAccept (TopN.acceptPair (TopN.acceptPair lazyLeaf lazyLeaf) (TopN.acceptPair lazyLeaf lazyLeaf)
+      ((g k 0, g k 1), (g k 2, g k 3)) ((g t 0, g t 1), (g t 2, g t 3)))
+
 def handle : List String → String
+  | ["lazyacc", shape, keys, thr] =>
+    match shape.toNat?, natList keys, natList thr with
+    | some sh, some k, some t => lazyAccept sh k t
+    | _, _, _ => "bad-op"
   | ["bwand", policy, arg, initial, scorers] =>
     match f32? arg, f32? initial, (scorers.splitOn "/").mapM parseScorer with
     | some arg, some θ0, some ss =>
